@@ -429,8 +429,8 @@ def pick_types(w: World, rng, n):
     return out
 
 
-def conv_session(v: Verdict, name: str, flags: dict, n_worlds: int, profile: dict, oracles: set):
-    rng = random.Random(v.seed * 7919 + hash(name) % 1000 if False else v.seed * 7919 + sum(map(ord, name)))
+def conv_session(v: Verdict, name: str, flags: dict, n_worlds: int, profile: dict, oracles: set, with_model: bool = True):
+    rng = random.Random(v.seed * 7919 + sum(map(ord, name)))
     S = Session(v, name, flags)
     for wi in range(n_worlds):
         w = L.gen_world(rng, profile)
@@ -513,6 +513,8 @@ def conv_session(v: Verdict, name: str, flags: dict, n_worlds: int, profile: dic
                 if "C06" in oracles:
                     oracle_c06_unstruct(v, w, t, x, outs)
         S.close_world(w, tables, cases)
+    if not with_model:
+        return S
     bad = S.run_model()
     if bad is not None:
         v.obligation(f"correspondence:CONV/{name} (model structure/unstructure = implementation on every generated case)", not bad,
@@ -694,4 +696,12 @@ def check_conv(v: Verdict, prop: str, t1_summary, n_worlds: int):
         profile["any_tuples"] = True
         profile["init_false"] = 0.1
     S = conv_session(v, prop, flags_of(t1_summary), n_worlds, profile, {prop})
+    if v.broken and not v.violations:
+        # a proof obligation, T1 or the correspondence no longer checks and the oracle found nothing yet:
+        # search for a failing input with an enlarged budget (oracle only, other sub-seeds)
+        for k in range(1, 4):
+            conv_session(v, f"{prop}-search{k}", flags_of(t1_summary), n_worlds * 2, profile, {prop}, with_model=False)
+            if v.violations:
+                break
+        v.coverage["enlarged_search_rounds"] = k
     return S
